@@ -440,7 +440,10 @@ impl Pager {
 
     /// Allocates `count` consecutive pages past the end of the used area and
     /// returns the first one.
+    #[cfg_attr(nervusdb_verif, track_caller)]
     pub(crate) fn allocate_contiguous(&mut self, count: u64) -> Result<PageId> {
+        #[cfg(nervusdb_verif)]
+        let vt_caller = std::panic::Location::caller().file();
         let start = self.meta.next_page_id;
         let end = start
             .checked_add(count)
@@ -451,6 +454,10 @@ impl Pager {
         }
         // Grows the file and persists meta + bitmap for the whole run.
         self.ensure_allocated(PageId::new(end - 1))?;
+        #[cfg(nervusdb_verif)]
+        for id in start..end {
+            crate::verif_hooks::page_by("alloc", id, vt_caller);
+        }
         Ok(PageId::new(start))
     }
 
